@@ -98,9 +98,10 @@ func resolve(sel Selector, subject ipld.Node, at []string) (ipld.Node, error) {
 			switch {
 			case cur == nil || cur.Kind() == datamodel.Kind_Null:
 				if seg.Optional() {
-					// build an empty list
+					// build an empty list, and keep resolving the remaining segments on it
 					n, _ := qp.BuildList(basicnode.Prototype.Any, 0, func(_ datamodel.ListAssembler) {})
-					return n, nil
+					cur = n
+					continue
 				}
 				return nil, newResolutionError(fmt.Sprintf("can not iterate over kind: %s", kindString(cur)), at)
 
@@ -127,7 +128,8 @@ func resolve(sel Selector, subject ipld.Node, at []string) (ipld.Node, error) {
 				if err != nil {
 					panic("should never happen")
 				}
-				return nd, nil
+				// keep resolving the remaining segments on the list of values
+				cur = nd
 
 			default:
 				return nil, newResolutionError(fmt.Sprintf("can not iterate over kind: %s", kindString(cur)), at)
